@@ -1052,5 +1052,17 @@ def rule_named_children(ctx) -> RuleResult:
     return impl(ctx, _flow)
 
 
+def rule_plain(ctx) -> RuleResult:
+    from ._c12_round5 import rule_plain as impl
+
+    return impl(ctx, _flow)
+
+
+def rule_option(ctx) -> RuleResult:
+    from ._c12_round5 import rule_option as impl
+
+    return impl(ctx, _flow)
+
+
 RULES = [rule_alias, rule_fresh, rule_shape, rule_source, rule_pgroup, rule_nested, rule_override, rule_harvest, rule_dedup,
-         rule_snapshot, rule_type_override, rule_named_children]
+         rule_snapshot, rule_type_override, rule_named_children, rule_plain, rule_option]
